@@ -176,6 +176,15 @@ def _decorate_namespace_function(
                 base_func = getattr(base, key)
                 base_contract_checker = icontract._checkers.find_checker(func=base_func)
 
+                # The function may be the very function of the base class, bound again in the body of this class
+                # (``some_method = Base.some_method``). Its checker carries the contracts of the base class already, and
+                # it is the checker which the base class itself uses: it must be left as it is.
+                if (
+                    base_contract_checker is not None
+                    and base_contract_checker is contract_checker
+                ):
+                    return
+
                 # Ignore functions which don't have preconditions or postconditions
                 if base_contract_checker is not None:
                     base_preconditions.extend(base_contract_checker.__preconditions__)
@@ -257,6 +266,12 @@ def _decorate_namespace_property(
         base_snapshots = []  # type: List[Snapshot]
         base_postconditions = []  # type: List[Contract]
 
+        contract_checker = icontract._checkers.find_checker(func=func)
+
+        # The accessor may be the very function of a base class if the property is bound again in the body of
+        # this class (``some_property = Base.some_property``); see ``_decorate_namespace_function``.
+        shares_the_checker_with_a_base = False
+
         bases_have_func = False
         a_base_accepts_all = False
         for base in bases:
@@ -287,6 +302,13 @@ def _decorate_namespace_property(
                 # Check if there is a checker function in the base class
                 base_contract_checker = icontract._checkers.find_checker(func=base_func)
 
+                if (
+                    base_contract_checker is not None
+                    and base_contract_checker is contract_checker
+                ):
+                    shares_the_checker_with_a_base = True
+                    break
+
                 # Ignore functions which don't have preconditions or postconditions
                 if base_contract_checker is not None:
                     base_preconditions.extend(base_contract_checker.__preconditions__)
@@ -301,6 +323,9 @@ def _decorate_namespace_property(
                 ):
                     a_base_accepts_all = True
 
+        if shares_the_checker_with_a_base:
+            continue
+
         # A base which specifies no preconditions accepts all the input (see ``_decorate_namespace_function``).
         if a_base_accepts_all:
             base_preconditions = []
@@ -310,7 +335,6 @@ def _decorate_namespace_property(
         snapshots = []  # type: List[Snapshot]
         postconditions = []  # type: List[Contract]
 
-        contract_checker = icontract._checkers.find_checker(func=func)
         if contract_checker is not None:
             preconditions = contract_checker.__preconditions__  # type: ignore
             snapshots = contract_checker.__postcondition_snapshots__  # type: ignore
